@@ -12,7 +12,7 @@ import re
 import tomllib
 
 import harness
-from facts import Facts, norm
+from facts import Facts, norm, callee_key, callee_def
 from typestr import type_names, split_generic
 
 ROOTS = ["cooklang::model::Recipe", "cooklang::scale::Servings", "cooklang::scale::Scaled",
@@ -66,6 +66,7 @@ def rename(name, rule):
 def run(chk: harness.Check):
     paths, th = harness.mir_facts("Q")
     F = Facts(paths)
+    _FACTS["F"] = F
     spath, _ = harness.syn_facts()
     with open(spath) as fh:
         syn = json.load(fh)
@@ -290,10 +291,23 @@ def _check_fields(chk, judge, F, items, k, variant, fields, owner_attr, where, l
             judge("C15.S4-skip", k, fkey, False, where, f"field {k}.{fkey} is skipped: its value does not survive a round trip")
             continue
         if "skip_serializing_if" in am:
-            ok = ty.startswith("Option<") or "default" in am or has_default
+            pred = str(am["skip_serializing_if"])
+            dflt = am.get("default", True if has_default else None)
+            if ty.startswith("Option<") and pred.endswith("is_none") and dflt in (None, True):
+                ok, why = True, "Option skipped when None"
+            elif dflt is None:
+                ok, why = False, "skip_serializing_if without `default` on a non-Option type — deserialization of the shortened form fails"
+            elif dflt is not True:
+                ok, why = False, f"the omitted value is decided by `{pred}` but the value restored on deserialization by the custom default `{dflt}`: they cannot be shown to agree"
+            elif pred.endswith(("::is_empty", "is_none")):
+                ok, why = True, "empty collection skipped, Default::default() is empty"
+            elif _is_default_predicate(judge, pred):
+                ok, why = True, "predicate compares with Default::default()"
+            else:
+                ok, why = False, f"the skip predicate `{pred}` cannot be shown to hold exactly for Default::default()"
             judge("C15.S3-skip-if", k, fkey, ok, where,
-                  f"field {k}.{fkey}: skip_serializing_if without `default` on a non-Option type — deserialization of the shortened form fails",
-                  sample=f"{where}: {fkey} skip_serializing_if with default/Option")
+                  f"field {k}.{fkey}: {why}",
+                  sample=f"{where}: {fkey} skip_serializing_if — {why}")
         if "default" in am and not ("skip_serializing_if" in am):
             chk.ok("C15.S3-skip-if", f"{k}|{fkey}", f"{where}: {fkey} has default (accepts more, loses nothing)")
         if "with" in am:
@@ -365,6 +379,24 @@ def _check_fields(chk, judge, F, items, k, variant, fields, owner_attr, where, l
     judge("C15.S8-names", k, (variant + "." if variant else "") + "fields", not dup, where,
           f"{k}{('::' + variant) if variant else ''} has fields with the same serialized name: {dup}",
           sample=f"{where}: field names {names}")
+
+
+_FACTS = {}
+
+
+def _is_default_predicate(judge, pred):
+    """A local predicate whose body is `*v == T::default()` (calls Default::default and PartialEq::eq)."""
+    F = _FACTS.get("F")
+    if F is None:
+        return False
+    name = pred.split("::")[-1]
+    for k, f in F.funcs.items():
+        if k.endswith("::" + name) and f.crate == "cooklang" and not f.is_closure():
+            cs = [callee_key(t) or "" for _, t in f.calls()]
+            cd = [callee_def(t) or "" for _, t in f.calls()]
+            if any(c.endswith("Default::default") for c in cs + cd) and any(c.endswith("PartialEq::eq") for c in cs + cd) and len(cs) <= 3:
+                return True
+    return False
 
 
 def _match_close(s, i):
